@@ -6,6 +6,9 @@ mod laws;
 mod capture;
 mod monitors;
 mod monitors2;
+mod monitors3;
+mod extras;
+mod rt;
 mod props;
 mod runner;
 mod scenario;
@@ -102,6 +105,34 @@ fn main() {
             }
             std::process::exit(code);
         }
+        "capseq" => {
+            let vals: Vec<usize> = get("vals", "-").split(',').filter_map(|s| s.parse().ok()).collect();
+            extras::capseq_child(&vals);
+        }
+        "extra" => {
+            let prop = get("prop", "");
+            let tier = get("tier", "quick");
+            let thorough = tier == "thorough";
+            let seed: u64 = get("seed", "1").parse().unwrap_or(1);
+            let rout = a.get("replays-out").cloned().unwrap_or_else(|| get("replays", "/verif/replays"));
+            let mut part = runner::Part { property: prop.clone(), tier: tier.clone(), seed, ..Default::default() };
+            let t0 = std::time::Instant::now();
+            let code = match prop.as_str() {
+                "C05" => extras::c05_laws(seed, if thorough { 200_000 } else { 5_000 }, &rout, &mut part),
+                "C09" => extras::c09_caps(seed, if thorough { 400 } else { 40 }, &rout, &mut part),
+                "C11" => extras::c11_ids(seed, if thorough { 400 } else { 40 }, &rout, &mut part),
+                _ => 0,
+            };
+            part.wall_s = t0.elapsed().as_secs_f64();
+            let out = get("out", "");
+            let js = serde_json::to_string(&part).unwrap();
+            if out.is_empty() {
+                println!("{js}");
+            } else {
+                std::fs::write(&out, js).expect("write part");
+            }
+            std::process::exit(code);
+        }
         "serve" => {
             runner::serve();
         }
@@ -115,6 +146,19 @@ fn main() {
                 std::process::exit(2);
             };
             let known = runner::KnownFile::load(&get("known", "/verif/known_findings.json"));
+            // replay files written by the non-scenario checks carry an `extra` payload
+            if let Ok(s) = std::fs::read_to_string(get("file", "")) {
+                if let Ok(x) = serde_json::from_str::<extras::ExtraReplay>(&s) {
+                    let errs = extras::replay_extra(&prop, &x.extra);
+                    if errs.is_empty() {
+                        println!("replay passed");
+                        std::process::exit(0);
+                    }
+                    println!("VIOLATION property={} replay={}", prop, get("file", ""));
+                    println!("  kind={} detail={}", x.kind, errs.join("; "));
+                    std::process::exit(1);
+                }
+            }
             let code = runner::replay(&def, &get("file", ""), &known);
             std::process::exit(code);
         }
